@@ -32,7 +32,7 @@ func ResEqual(op string, a, b Res) bool {
 	switch op {
 	case "stat", "lstat", "fstat":
 		return a.Info == b.Info
-	case "readlink", "evalsymlinks", "getwd":
+	case "readlink", "evalsymlinks", "getwd", "abs":
 		return a.Path.Render() == b.Path.Render() && a.Path.Abs == b.Path.Abs
 	case "readdir", "freaddir", "freaddirnames":
 		return a.N == b.N && sameSet(a.Names, b.Names)
@@ -102,7 +102,7 @@ func (s *Session) Step(tr string, i int, c Call, names []string) Event {
 	}
 
 	s.quiet = false
-	ev := Event{Tr: tr, I: i, Fs: s.Target, Call: c, Res: res, Post: snap.Post, Hs: snap.Hs, Cwd: snap.Cwd, Srt: snap.Srt, Inv: "ok", Cons: cons, Leak: leak, Um: s.baseUmask()}
+	ev := Event{Tr: tr, I: i, Fs: s.Target, Call: c, Res: res, Post: snap.Post, Hs: snap.Hs, Cwd: snap.Cwd, Srt: snap.Srt, Inv: "ok", Cons: cons, Leak: leak, Um: s.baseUmask(), Uid: s.baseUid()}
 
 	if ev.Cwd.Parts == nil {
 		ev.Cwd.Parts = []string{}
@@ -161,6 +161,19 @@ func (s *Session) baseUmask() int {
 	}
 
 	return int(s.base().UMask())
+}
+
+// baseUid is the current user of the base file system below a RoFS or FailFS wrapper (-1: not observed).
+func (s *Session) baseUid() int {
+	if s.Target == "osfs" || s.Base == nil || !(s.Wrap == "rofs" || strings.HasPrefix(s.Wrap, "fail")) {
+		return -1
+	}
+
+	if !s.Base.HasFeature(avfs.FeatIdentityMgr) || s.Base.User() == nil {
+		return -1
+	}
+
+	return s.Base.User().Uid()
 }
 
 func permClass(e string) bool { return e == "EACCES" || e == "EPERM" }
@@ -285,7 +298,7 @@ func (s *Session) WrapWith(tr string, i int, kind string, names []string) Event 
 	snap := s.Project(names)
 
 	return Event{Tr: tr, I: i, Fs: s.Target, Call: c, Res: NewRes("ok"), Post: snap.Post, Hs: snap.Hs, Cwd: snap.Cwd,
-		Srt: snap.Srt, Inv: "ok", Mt: s.MtimeDigest(), Cons: []string{}, Um: s.baseUmask()}
+		Srt: snap.Srt, Inv: "ok", Mt: s.MtimeDigest(), Cons: []string{}, Um: s.baseUmask(), Uid: s.baseUid()}
 }
 
 // BuildCalls returns elementary calls (mkdir, writefile, link, symlink, chown, chmod on fresh names)
@@ -807,6 +820,10 @@ func (f *Factory) replayEdge(idx int, e *Edge, names []string) (EdgeResult, erro
 	okHs := e.Hs == nil || sameHs(ev.Hs, e.Hs)
 	if e.Um != nil && *e.Um != ev.Um {
 		okHs = false // the parent's umask changed
+	}
+
+	if e.Uid != nil && ev.Uid != -1 && *e.Uid != ev.Uid {
+		okHs = false // the base's current user is not the one the specification expects
 	}
 
 	if okRes && okPost && okCwd && okInv && okHs {
